@@ -34,11 +34,12 @@ def value_cases(rng, dt, tier):
         if dt == 10: vs += DOUBLE_BITS
         return [('scalar', w, v) for v in (vs if not quick else vs[:4] + vs[5:8])]
     if dt in BYTES:
-        lens = [0, 1, 2, 3, 255, 256, 1001] if not quick else [0, 1, 3, 255, 256]
+        lens = [0, 1, 2, 3, 255, 256, 257, 511, 512, 1001] if not quick else [0, 1, 3, 255, 256, 257, 512]
         return [('bytes', rng.bytes(n)) for n in lens]
     if dt in ELEMS:
         w = ELEMS[dt]
-        ns = [0, 1, 2, 3, 255 // w, 256 // w, 64] if not quick else [0, 1, 3, 256 // w]
+        # element COUNTS around 255/256/257 as well as byte lengths around 255/256: a count kept in a narrow integer wraps there
+        ns = [0, 1, 2, 3, 255 // w, 256 // w, 64, 255, 256, 257, 300, 512, 1000] if not quick else [0, 1, 3, 256 // w, 255, 256, 257]
         out = []
         for n in ns:
             es = [rng.bits(8 * w) for _ in range(n)]
